@@ -318,6 +318,10 @@ func scanForbiddenCalls(P *Program, sp ScanSpec) []*OblResult {
 					continue
 				}
 				full := f.Pkg.Pkg.Path() + "." + f.Name()
+				if recv := f.Signature.Recv(); recv != nil {
+					full = f.Pkg.Pkg.Path() + ".(" + recvTypeName(recv.Type()) + ")." + f.Name()
+					full = strings.Replace(full, "(*", "(", 1)
+				}
 				for _, p := range pats {
 					if full == p || (strings.HasSuffix(p, ".") && strings.HasPrefix(full, p)) {
 						caller := CanonName(fn)
